@@ -194,25 +194,7 @@ func c06Run(w *W, idx int) {
 		case 12:
 			// valid wide programs: nested same-kind and/or groups whose flattened operand count is around the 127 limit
 			stratum = "wide-andor-groups"
-			op := []string{"and", "or", "&&", "||", "&", "|"}[r.Intn(6)]
-			ng := 2 + r.Intn(2)
-			var groups []*Node
-			for gi := 0; gi < ng; gi++ {
-				k := []int{40, 60, 63, 64, 65, 70, 100, 126, 127}[r.Intn(9)]
-				groups = append(groups, nary(op, TBool, k, func(i int) *Node {
-					if r.Intn(8) == 0 {
-						return Lit(r.Intn(2) == 0)
-					}
-					return Var([]string{"b0", "b1", "b2"}[r.Intn(3)], TBool)
-				}))
-			}
-			tree := Op(op, TBool, groups...)
-			switch r.Intn(3) {
-			case 0:
-				tree = If(tree, Lit(int64(1)), Lit(int64(2)))
-			case 1:
-				tree = Op("not", TBool, tree)
-			}
+			tree := wideAndOrGroups(r)
 			src = tree.Prefix()
 		case 10:
 			// unmutated programs under hostile bindings
@@ -621,4 +603,31 @@ func c06BeyondTwoMillion(w *W) {
 			w.Fail("fatal/deep-nesting-"+fatalSig(stderr), "%s kills the process: %s", desc, firstLines(stderr, 6))
 		}
 	}
+}
+
+// wideAndOrGroups: nested same-kind and/or groups whose flattened operand count is around the 127 limit,
+// used as an operand of something else.
+func wideAndOrGroups(r *rand.Rand) *Node {
+	op := []string{"and", "or", "&&", "||", "&", "|"}[r.Intn(6)]
+	ng := 2 + r.Intn(2)
+	var groups []*Node
+	for gi := 0; gi < ng; gi++ {
+		k := []int{40, 60, 63, 64, 65, 70, 100, 126, 127}[r.Intn(9)]
+		groups = append(groups, nary(op, TBool, k, func(i int) *Node {
+			if r.Intn(8) == 0 {
+				return Lit(r.Intn(2) == 0)
+			}
+			return Var([]string{"b0", "b1", "b2"}[r.Intn(3)], TBool)
+		}))
+	}
+	tree := Op(op, TBool, groups...)
+	switch r.Intn(4) {
+	case 0:
+		tree = If(tree, Lit(int64(1)), Lit(int64(2)))
+	case 1:
+		tree = Op("not", TBool, tree)
+	case 2:
+		tree = Op("=", TBool, tree, Var("b0", TBool))
+	}
+	return tree
 }
